@@ -16,7 +16,9 @@ ALSO = {"C01-reply-flags-echo": ["C04"], "C01-vring-addr-layout": ["C02"], "C20-
         # round 5
         "R5-C05-recv-data-iov-len": ["C08"], "R5-C11-sparse-thread-mask": ["C17"],
         # round 6
-        "R6-C12-evt-idx-block-offset": ["C17"]}
+        "R6-C12-evt-idx-block-offset": ["C17"],
+        # round 7
+        "R7-C11-sparse-mask-event-index": ["C17"]}
 claimed = {c["property_id"] if "property_id" in c else c.get("id") for c in json.load(open(os.path.join(V, "MANIFEST.json"))).get("checks", [])}
 want = sys.argv[1:]
 res = json.load(open(RES)) if os.path.exists(RES) else {}
